@@ -613,6 +613,7 @@ pub fn replay_bounded(unit: &str) -> Option<i32> {
         "b_c03_apply_tagenv_lists" => run_grid(unit, contract_apply_tagenv_lists, limit),
         "b_c07_named_bits" => run_grid(unit, contract_named_bits, limit),
         "b_generate_constructed" => run_grid(unit, contract_generate_constructed, limit),
+        "b_c04_component_bounds" => run_grid(unit, contract_generate_component_bounds, limit),
         "b_c02_recursion_marking" => run_grid(unit, contract_recursion_marking, limit),
         "b_c04_value_references" => run_grid(unit, contract_constraint_value_references, limit),
         "b_c04_integer_set_expression" => run_grid(unit, contract_integer_set_expression, limit),
@@ -981,6 +982,48 @@ pub fn contract_recursion_marking<C: Ctx>(cx: &mut C) {
         // transitive closure
         for m in 0..3 { for i in 0..3 { for j in 0..3 { if edge[i][m] && edge[m][j] { edge[i][j] = true; } } } }
         vob!(cx, "C02.recursion.every_reference_cycle_has_a_boxed_member", !(edge[0][0] || edge[1][1] || edge[2][2]));
+    }
+    #[cfg(kani)]
+    { let _ = cx; }
+}
+
+// ------------------------------------------------------------------------------------------------
+// C04 — the value(..) annotation emitted for a constrained INTEGER-like component (generator/rasn/utils.rs:
+// format_member_or_option -> constraints_and_type_name + format_range_annotations) is the range of the constraint.
+// Bounded stand-in (native): component typed INTEGER or by a type reference, range ends from {-5,0,3,MIN} x {5,MAX},
+// with/without extension marker, in SEQUENCE and CHOICE.
+// ------------------------------------------------------------------------------------------------
+pub fn contract_generate_component_bounds<C: Ctx>(cx: &mut C) {
+    #[cfg(not(kani))]
+    {
+        use crate::intermediate::constraints::*;
+        use crate::intermediate::types::*;
+        use crate::generator::Backend;
+        use std::{cell::RefCell, rc::Rc};
+        let by_reference = cx.any_bool();
+        let in_choice = cx.any_bool();
+        let lo = [Some(-5i128), Some(0), Some(3), None][cx.choose(4)];
+        let hi = [Some(5i128), None][cx.choose(2)];
+        let ext = cx.any_bool();
+        if !cx.assume(lo.is_some() || hi.is_some()) { return; }
+        let c = Constraint::Subtype(ElementSetSpecs { set: ElementOrSetOperation::Element(SubtypeElements::ValueRange { min: lo.map(ASN1Value::Integer), max: hi.map(ASN1Value::Integer), extensible: ext }), extensible: false });
+        let ty = if by_reference { ASN1Type::ElsewhereDeclaredType(DeclarationElsewhere { parent: None, module: None, identifier: "MyInt".into(), constraints: vec![c] }) }
+                 else { ASN1Type::Integer(Integer { constraints: vec![c], distinguished_values: None }) };
+        let outer = if in_choice {
+            ASN1Type::Choice(Choice { extensible: None, constraints: vec![], options: vec![ChoiceOption { name: "f0".into(), tag: None, ty, constraints: vec![], is_recursive: false }] })
+        } else {
+            ASN1Type::Sequence(SequenceOrSet { components_of: vec![], extensible: None, constraints: vec![], members: vec![SequenceOrSetMember { name: "f0".into(), tag: None, ty, optionality: Optionality::Required, is_recursive: false, constraints: vec![] }] })
+        };
+        let h = Rc::new(RefCell::new(ModuleHeader { name: "M".into(), module_identifier: None, encoding_reference_default: None, tagging_environment: TaggingEnvironment::Automatic, extensibility_environment: ExtensibilityEnvironment::Explicit, imports: vec![], exports: None }));
+        let tld = ToplevelDefinition::Type(ToplevelTypeDefinition { comments: String::new(), tag: None, name: "T".into(), ty: outer, parameterization: None, module_header: Some(h) });
+        cx.describe(|| format!("component_type={} in={} constraint=({}..{}{})", if by_reference { "MyInt (type reference)" } else { "INTEGER" }, if in_choice { "CHOICE" } else { "SEQUENCE" },
+            lo.map_or("MIN".to_string(), |v| v.to_string()), hi.map_or("MAX".to_string(), |v| v.to_string()), if ext { ", ..." } else { "" }));
+        let mut backend = crate::generator::rasn::Rasn::default();
+        let generated = match backend.generate_module(vec![tld]) { Ok(m) if m.warnings.is_empty() => m.generated.unwrap_or_default(), _ => { vob!(cx, "C04.generate.constrained_component_is_generated", false); return; } };
+        let Some((_, fields)) = item_of(&generated, "T") else { vob!(cx, "C04.generate.constrained_component_is_generated", false); return; };
+        let range = match (lo, hi) { (Some(l), Some(h)) => format!("{l}..={h}"), (Some(l), None) => format!("{l}.."), (None, Some(h)) => format!("..={h}"), _ => String::new() };
+        let want = if ext { format!("value (\"{range}\" , extensible)") } else { format!("value (\"{range}\")") };
+        vob!(cx, "C04.generate.component_value_annotation_is_the_constraint_range", fields.len() == 1 && fields[0].contains(&want));
     }
     #[cfg(kani)]
     { let _ = cx; }
